@@ -234,7 +234,7 @@ def shard(tier, i, n, seed):
                 check_case(idx, sl, T, v, R)
             except M.ModelError:
                 R.features['model_skipped'] += 1
-        guarded(R, one, {'slice': sl, 'T': T, 'v': v}, CM.type_features(T), idx)
+        guarded(R, one, {'slice': sl, 'T': T, 'v': v}, CM.type_features(T), idx, cpu_limit=180)
         R.features['slice:' + sl] += 1
         if idx % 2003 == seed % 2003:
             R.sample({'T': M.show_type(T), 'v': v})
